@@ -241,31 +241,32 @@ func (g *G) nameofArg(s *st, f *Field, ref string) string {
 var keywordRE = regexp.MustCompile(`^[A-Za-z_][A-Za-z0-9_]*$`)
 
 // word draws a search word: from the string values, the field names (top
-// level and nested at any depth), the named types, or a word that is absent.
+// level and nested at any depth), the named types, or (10%) a word that is absent.
 func (g *G) word() string {
-	var pool []string
-	switch g.intn(10, "wordsrc") {
-	case 0, 1, 2, 3:
-		pool = g.s.Words
-	case 4, 5, 6:
-		pool = g.s.NestedNames
-	case 7:
-		for _, f := range g.s.Fields {
-			pool = append(pool, f.Name)
+	var pools [][]string
+	add := func(p []string, weight int) {
+		var ok []string
+		for _, w := range p {
+			if keywordRE.MatchString(w) {
+				ok = append(ok, w)
+			}
 		}
-	case 8:
-		pool = g.s.NamedTypes
-	default:
-		pool = []string{"zzz", "foo", "bar", "hello", "oo", "ba"}
+		for i := 0; i < weight && len(ok) > 0; i++ {
+			pools = append(pools, ok)
+		}
 	}
-	if len(pool) == 0 {
-		pool = []string{"foo", "bar", "zzz"}
+	add(g.s.Words, 4)
+	add(g.s.NestedNames, 3)
+	var top []string
+	for _, f := range g.s.Fields {
+		top = append(top, f.Name)
 	}
-	w := pickStr(g, pool, "word")
-	if !keywordRE.MatchString(w) {
-		return "foo"
+	add(top, 1)
+	add(g.s.NamedTypes, 1)
+	if len(pools) == 0 || g.chance(10, "absentword") {
+		return pickStr(g, []string{"zzz", "foo", "bar", "hello", "oo", "ba"}, "absent")
 	}
-	return w
+	return pickStr(g, pools[g.intn(len(pools), "wordpool")], "word")
 }
 
 // pattern draws a glob, regexp or string pattern (for grep and search terms).
